@@ -1,5 +1,6 @@
 SPECIFICATION Spec
 CONSTANT Variant <- MCIntended
+CONSTANT InfoVariant <- MCShared
 INVARIANT TypeOK
 INVARIANT InvC20
 INVARIANT InvFunctional
